@@ -97,7 +97,8 @@ def check_one(J, u, norm_eps, reg_eps, dtype, which, key=None, pref_dtype=None):
     # the preference vector may be given in a coarser dtype than the matrix (float32, or integers): the weights must not be rounded to it
     pref = None if u is None else torch.tensor(u, dtype=dt if pref_dtype is None else getattr(torch, pref_dtype))
     cls = UPGrad if which == "upgrad" else DualProj
-    agg = cls(pref_vector=pref, norm_eps=norm_eps, reg_eps=reg_eps)
+    # positional (documented order: pref_vector, norm_eps, reg_eps) whenever the two eps differ - a swap in a signature is then visible
+    agg = cls(pref, norm_eps, reg_eps) if norm_eps != reg_eps else cls(pref_vector=pref, norm_eps=norm_eps, reg_eps=reg_eps)
     uu = np.full(m, 1.0 / m) if u is None else (pref.double().numpy())
     got = []
     h = agg.weighting.register_forward_hook(lambda mod, inp, out: got.append(out))
